@@ -451,7 +451,7 @@ def c14_world(rng, wid, modroot="w", stats=None):
 # ------------------------------------------------------------------------------------------------
 # rendering
 
-ANCHORS = {"d": "Free", "m": "Anchor", "p1": "Anchor", "p2": "Anchor"}
+ANCHORS = {"d": "Free", "m": "Anchor", "p1": "Anchor", "p2": "Anchor", "api": "GetT"}
 
 
 def render(W, outdir, rng=None, layout=None, edit=None):
